@@ -208,6 +208,16 @@ Section ABF.
     | z0 :: others => fold_left grid_add others z0
     end.
 
+  (* a walker of shared eABF: the three grids of shared ABF, its z grids (CZAR) and, on replica 0, the gathered
+     z grids; replica_share_CZAR() (run by write_output_files() on every replica, i.e. between two exchanges)
+     must change nothing but replica 0's gathered grids -- in particular not the snapshot last_* *)
+  Record ewalker := mkEW { e_w : walker; e_z : grid; e_gz : grid }.
+  Definition czar_gather_step (ws : list ewalker) : list ewalker :=
+    match ws with
+    | [] => []
+    | r :: others => mkEW (e_w r) (e_z r) (czar_gather (map e_z ws)) :: others
+    end.
+
   (* ---- specification side: the sampling history, kept per walker as
      (samples already exchanged, samples collected since the last exchange) *)
   Definition sample := (Z * A)%type.
